@@ -427,28 +427,45 @@ int
 sa_addr_port_from_str(sockaddr_storage_p addr,
     const char *buf, size_t buf_size) {
 	size_t addr_size, i;
-	uint16_t port = 0;
+	uint32_t port = 0;
 	char straddr[STR_ADDR_LEN];
-	const char *ptm, *ptm_end;
+	const char *ptm, *ptm_end, *tail_end;
 
 	if (NULL == addr || NULL == buf || 0 == buf_size)
 		return (EINVAL);
 
+	tail_end = (buf + buf_size);
 	ptm = mem_rchr(buf, buf_size, ':'); /* Addr-port delimiter. */
 	ptm_end = mem_rchr(buf, buf_size, ']'); /* IPv6 addr end. */
 	if (NULL != ptm &&
 	    ptm > buf &&
 	    ':' != (*(ptm - 1))) { /* IPv6 or port. */
 		if (ptm > ptm_end) { /* ptm = port (':' after ']') */
+			tail_end = ptm;
 			if (NULL == ptm_end) {
 				ptm_end = ptm;
 			}
 			ptm ++;
-			port = str2u16(ptm, (size_t)(buf_size - (size_t)(ptm - buf)));
+			/* Port: 1-5 decimal digits, not above 65535. */
+			addr_size = (size_t)(buf_size - (size_t)(ptm - buf));
+			if (0 == addr_size || 5 < addr_size)
+				return (EINVAL);
+			for (i = 0; i < addr_size; i ++) {
+				if ('0' > ptm[i] || '9' < ptm[i])
+					return (EINVAL);
+				port = ((port * 10) + (uint32_t)(ptm[i] - '0'));
+			}
+			if (0xffff < port)
+				return (EINVAL);
 		}/* else - IPv6 and no port. */
 	}
 	if (NULL == ptm_end) {
 		ptm_end = (buf + buf_size);
+	} else if (']' == (*ptm_end)) { /* Only blanks between ']' and ':port' / end. */
+		for (ptm = (ptm_end + 1); ptm < tail_end; ptm ++) {
+			if (' ' != (*ptm) && '\t' != (*ptm))
+				return (EINVAL);
+		}
 	}
 	ptm = buf;
 	/* Skip spaces, tabs and [ before address. */
@@ -474,7 +491,7 @@ sa_addr_port_from_str(sockaddr_storage_p addr,
 		sa_init(addr, family_list[i], NULL, 0);
 		if (1 == inet_pton(family_list[i], straddr,
 		    sa_addr_get(addr))) {
-			sa_port_set(addr, port);
+			sa_port_set(addr, (uint16_t)port);
 			return (0);
 		}
 	}
